@@ -11,7 +11,7 @@ verus! {
 //@include prelude/paths.rs
 //@path lsm_tree::InternalValue => InternalValue
 //@broadcast key_bytes_of_slice
-//@world tree.get tree.contains_key tree.size_of tree.iter tree.range tree.prefix memtable.get self.iter
+//@world batch.commit tree.get tree.contains_key tree.size_of tree.iter tree.range tree.prefix memtable.get self.iter
 
 pub type World = RWorld;
 pub type AnyTree = AnyTreeR;
@@ -74,7 +74,74 @@ impl LocalTable {
         ensures final(self).ks == old(self).ks, final(self).log@ == old(self).log@.push(LocalW { seqno: v.key.seqno, vt: v.key.value_type }) { unimplemented!() }
 }
 // HashMap<Keyspace, Arc<Memtable>>: per-keyspace local write sets; ghost view: keyspace id -> log of local writes
-pub struct TxMemtables { pub view: Ghost<Map<u64, Seq<LocalW>>>, pub ids: Ghost<Map<u64, int>> }
+pub struct TxMemtables { pub view: Ghost<Map<u64, Seq<LocalW>>>, pub ids: Ghost<Map<u64, int>>,
+    pub content: Ghost<Seq<(u64, Seq<IV>)>> }   // (keyspace id, that keyspace's local versions in Memtable::iter order), in HashMap iteration order
+pub open spec fn iv(i: InternalValue) -> IV { IV { key: i.key.user_key@, value: i.value@, vt: i.key.value_type, seqno: i.key.seqno } }
+// HashMap<Keyspace, Arc<Memtable>>::into_iter: every entry once, order unspecified (some fixed order: `content`)
+pub struct TxMemIntoIter { pub content: Ghost<Seq<(u64, Seq<IV>)>>, pub idx: Ghost<int> }
+impl Iterator for TxMemIntoIter {
+    type Item = (Keyspace, MemtableArc);
+    #[verifier::external_body]
+    fn next(&mut self) -> (r: Option<(Keyspace, MemtableArc)>)
+        ensures final(self).content == old(self).content,
+            0 <= old(self).idx@ < old(self).content@.len() ==> r is Some && r->Some_0.0.id == old(self).content@[old(self).idx@].0 && r->Some_0.1.items@ == old(self).content@[old(self).idx@].1 && final(self).idx@ == old(self).idx@ + 1,
+            old(self).idx@ >= old(self).content@.len() ==> r is None && final(self).idx@ == old(self).idx@,
+    { unimplemented!() }
+}
+impl IntoIterator for TxMemtables {
+    type Item = (Keyspace, MemtableArc);
+    type IntoIter = TxMemIntoIter;
+    #[verifier::external_body]
+    fn into_iter(self) -> (r: TxMemIntoIter) ensures r.content == self.content, r.idx@ == 0 { unimplemented!() }
+}
+impl TxMemtables { #[verifier::external_body] pub fn is_empty(&self) -> (r: bool) ensures r == (self.content@.len() == 0) { unimplemented!() } }
+// lsm_tree::Memtable::iter: every version, ordered by user key ascending, then seqno descending (ASSUMED: lsm-tree's
+// InternalKey ordering), so the versions of one key are adjacent and the newest comes first
+pub struct MemIter { pub items: Ghost<Seq<IV>>, pub idx: Ghost<int> }
+impl Iterator for MemIter {
+    type Item = InternalValue;
+    #[verifier::external_body]
+    fn next(&mut self) -> (r: Option<InternalValue>)
+        ensures final(self).items == old(self).items,
+            0 <= old(self).idx@ < old(self).items@.len() ==> r is Some && iv(r->Some_0) == old(self).items@[old(self).idx@] && final(self).idx@ == old(self).idx@ + 1,
+            old(self).idx@ >= old(self).items@.len() ==> r is None && final(self).idx@ == old(self).idx@,
+    { unimplemented!() }
+}
+impl MemtableArc { #[verifier::external_body] pub fn iter(&self) -> (r: MemIter) ensures r.items == self.items, r.idx@ == 0 { unimplemented!() } }
+impl vstd::std_specs::cmp::PartialEqSpecImpl<&Slice> for Slice {
+    open spec fn obeys_eq_spec() -> bool { true }
+    open spec fn eq_spec(&self, other: &&Slice) -> bool { self@ == other@ }
+}
+impl PartialEq<&Slice> for Slice { #[verifier::external_body] fn eq(&self, other: &&Slice) -> (r: bool) { unimplemented!() } }
+// ---- the batch a transaction commits through (src/batch/mod.rs; WriteBatch::commit is proved in U-WRITE)
+pub struct Item { pub keyspace: Keyspace, pub key: UserKey, pub value: UserValue, pub value_type: ValueType }
+impl Item {
+    // batch::Item::new asserts a non-empty key of at most 65535 bytes (a panic otherwise): not an obligation here
+    #[verifier::external_body]
+    pub fn new(keyspace: Keyspace, key: UserKey, value: UserValue, value_type: ValueType) -> (r: Item)
+        ensures r.keyspace == keyspace, r.key@ == key@, r.value@ == value@, r.value_type == value_type { unimplemented!() }
+}
+pub open spec fn bitem(i: Item) -> BItemV { BItemV { ks: i.keyspace.id, key: i.key@, value: i.value@, vt: i.value_type } }
+pub open spec fn bitems(v: Seq<Item>) -> Seq<BItemV> { Seq::new(v.len(), |i: int| bitem(v[i])) }
+pub struct OwnedWriteBatch { pub data: Vec<Item>, pub durability: Option<PersistMode> }
+impl OwnedWriteBatch {
+    #[verifier::external_body] pub fn new(db: Database) -> (r: OwnedWriteBatch) ensures r.data@.len() == 0, r.durability is None { unimplemented!() }
+    pub fn durability(self, mode: Option<PersistMode>) -> (r: OwnedWriteBatch) ensures r.data == self.data, r.durability == mode { OwnedWriteBatch { data: self.data, durability: mode } }
+    #[verifier::external_body]
+    pub fn commit(self, Tracked(w): Tracked<&mut RWorld>) -> (r: Result<(), Error>)
+        ensures final(w).reads == old(w).reads, r is Ok ==> final(w).committed == old(w).committed.push(bitems(self.data@)), r is Err ==> final(w).committed == old(w).committed,
+    { unimplemented!() }
+}
+/// C08: of the local versions of one keyspace (newest first within a key), exactly the FIRST of each key is committed
+pub open spec fn firsts(ks: u64, s: Seq<IV>, n: int) -> Seq<BItemV> decreases n {
+    if n <= 0 { Seq::empty() } else {
+        let r = firsts(ks, s, n - 1);
+        if n - 1 == 0 || s[n - 1].key != s[n - 2].key { r.push(BItemV { ks, key: s[n - 1].key, value: s[n - 1].value, vt: s[n - 1].vt }) } else { r }
+    }
+}
+pub open spec fn all_firsts(c: Seq<(u64, Seq<IV>)>, n: int) -> Seq<BItemV> decreases n {
+    if n <= 0 { Seq::empty() } else { all_firsts(c, n - 1) + firsts(c[n - 1].0, c[n - 1].1, c[n - 1].1.len() as int) }
+}
 pub struct HashMap { pub dummy: u8 }   // crate::HashMap alias: only `HashMap::default()` is used here
 impl HashMap { #[verifier::external_body] pub fn default() -> (r: TxMemtables) ensures r.view@ == Map::<u64, Seq<LocalW>>::empty() { unimplemented!() } }
 impl TxMemtables {
@@ -146,6 +213,37 @@ pub open spec fn tx_view(t: &BaseTransaction, ks: u64, key: Seq<u8>) -> Option<S
     ensures r.iter.at@ == self.nonce.instant && r.nonce.instant == self.nonce.instant, // [C05:tx-reads-at-its-own-instant]
         r.iter.local@ is Some ==> r.iter.local@ == Some(self.seqno), // [C08:scan-merges-local-writes-up-to-own-seqno]
         tx_reads(*old(w), *final(w), self.nonce.instant),
+//@end
+
+//@extract src/tx/write_tx.rs :: BaseTransaction :: commit world desugar_for=0 desugar_for_plain=1 props=C08
+//@contract
+    ensures
+        final(w).reads == old(w).reads,
+        self.memtables.content@.len() == 0 ==> r is Ok && final(w).committed == old(w).committed, // [C08:empty-write-set-commits-nothing]
+        // exactly the final write per key, of every keyspace written, in ONE batch
+        self.memtables.content@.len() > 0 && r is Ok ==> final(w).committed == old(w).committed.push(all_firsts(self.memtables.content@, self.memtables.content@.len() as int)), // [C08:commit-applies-exactly-the-final-write-per-key-in-one-batch]
+        r is Err ==> final(w).committed == old(w).committed, // [C08:failed-commit-applies-nothing]
+//@proof before let mut batch
+        let ghost content = self.memtables.content@;
+//@loop 0
+            invariant
+                *w == *old(w), __fjx_it0.content@ == content, __fjx_it0.idx@ == __fjx_n0, 0 <= __fjx_n0 <= content.len(), content == self.memtables.content@,
+                bitems(batch.data@) == all_firsts(content, __fjx_n0), batch.durability == self.durability,
+            ensures __fjx_n0 == content.len(),
+            decreases content.len() - __fjx_n0,
+//@loop 1
+                invariant
+                    *w == *old(w), __fjx_it0.content@ == content, __fjx_it0.idx@ == __fjx_n0, 0 < __fjx_n0 <= content.len(), content == self.memtables.content@,
+                    keyspace.id == content[__fjx_n0 - 1].0, __fjx_it1.items@ == content[__fjx_n0 - 1].1, __fjx_it1.idx@ == __fjx_n1, 0 <= __fjx_n1 <= content[__fjx_n0 - 1].1.len(),
+                    bitems(batch.data@) == all_firsts(content, __fjx_n0 - 1) + firsts(keyspace.id, content[__fjx_n0 - 1].1, __fjx_n1), batch.durability == self.durability,
+                    __fjx_n1 == 0 ==> prev_key is None,
+                    __fjx_n1 > 0 ==> prev_key is Some && prev_key->Some_0@ == content[__fjx_n0 - 1].1[__fjx_n1 - 1].key,
+                ensures __fjx_n1 == content[__fjx_n0 - 1].1.len(),
+                decreases content[__fjx_n0 - 1].1.len() - __fjx_n1,
+//@proof before batch.data.push(
+                let ghost d0 = bitems(batch.data@);
+//@proof after batch.data.push(
+                proof { assert(bitems(batch.data@) =~= d0.push(BItemV { ks: keyspace.id, key: iv(item).key, value: iv(item).value, vt: iv(item).vt })); }
 //@end
 
 //@extract src/tx/write_tx.rs :: BaseTransaction :: insert props=C08
